@@ -72,12 +72,16 @@ class World(object):
         self.objs['sample-dupname'] = self.objs['sample'][:, ['c1', 'c2', 'c1']]
         self.objs['array'] = np.array(EVENTS, dtype=np.int64)
         self.objs['array-float'] = np.array(EVENTS, dtype=np.float64)
-        path = os.path.join(self.dir, 'double.fcs')
-        fcsgen.write_sample(path, [[float(v) for v in r] for r in EVENTS], ['c1', 'c2', 'c3'], R, datatype='D',
-                            pne=['4,1', '0,0', '0,0'], png=[None, None, '4'], pnv=['400', '500', '600'], pns=['A', 'B', 'C'])
-        with warnings.catch_warnings():
-            warnings.simplefilter('ignore')
-            self.objs['sample-double'] = FlowCal.io.FCSData(path)
+        # the floating-point file of the specification, stored in double and in single precision (the recorded readings are
+        # whole numbers: both hold them exactly, and the documented law is evaluated in double precision either way)
+        for d, dt in enumerate(('D', 'F', 'D', 'F')):
+            path = os.path.join(self.dir, 'float%d.fcs' % d)
+            fcsgen.write_sample(path, [[float(v) for v in r] for r in EVENTS], ['c1', 'c2', 'c3'], R, datatype=dt, big=(d >= 2),
+                                pne=['4,1', '0,0', '0,0'], png=[None, None, '4'], pnv=['400', '500', '600'], pns=['A', 'B', 'C'])
+            with warnings.catch_warnings():
+                warnings.simplefilter('ignore')
+                self.objs[('sample-double', d)] = FlowCal.io.FCSData(loadform.arg(path))
+        self.objs['sample-double'] = self.objs[('sample-double', 0)]
 
     def fresh(self, cont, k=0):
         return self.objs.get((cont, k % 4), self.objs[cont])
